@@ -25,6 +25,10 @@ type verifStream struct {
 }
 
 func (s *verifStream) Read(p []byte) (int, error) {
+	if s.closed {
+		// like a network or file-backed body: nothing can be read after Close
+		return 0, errors.New("read on closed body")
+	}
 	if s.pos >= len(s.data) {
 		return 0, io.EOF
 	}
@@ -34,7 +38,7 @@ func (s *verifStream) Read(p []byte) (int, error) {
 }
 func (s *verifStream) Close() error { s.closed = true; return nil }
 
-//verif:harness id=C13 tier=quick,thorough witness=end bounds="body bookkeeping: body of 0-2 symbolic bytes as a one-shot stream; validated once, or (without security, GetBody nil or working) twice in a row; GetBody in {nil, working, failing}; security none / [{A}] / [{A,B}] with an authentication callback that reads 0..len bytes of the body and a symbolic verdict; body declared required/optional as text/plain (schema string maxLength symbolic) or undeclared content type; MultiError symbolic; after ValidateRequest (nil or error) reading Request.Body to EOF yields exactly the original bytes"
+//verif:harness id=C13 tier=quick,thorough witness=end bounds="body bookkeeping: body of 0-2 symbolic bytes as a one-shot stream that honours Close (reads fail afterwards); validated once, or (without security, GetBody nil or working) twice in a row; GetBody in {nil, working, failing}; security none / [{A}] / [{A,B}] with an authentication callback that reads 0..len bytes of the body and a symbolic verdict; body declared required/optional as text/plain (schema string maxLength symbolic) or undeclared content type; MultiError symbolic; after ValidateRequest (nil or error) reading Request.Body to EOF yields exactly the original bytes"
 func verifH_C13_body_readable() {
 	text := verifNondetString("body", 2)
 	orig := []byte(text)
@@ -85,10 +89,11 @@ func verifH_C13_body_readable() {
 	}
 
 	var rest []byte
+	var rerr error
 	if req.Body != nil {
-		rest, _ = io.ReadAll(req.Body)
+		rest, rerr = io.ReadAll(req.Body)
 	}
-	verifAssert(bytes.Equal(rest, orig), "C13 body: after request validation the body can still be read in full")
+	verifAssert(rerr == nil && bytes.Equal(rest, orig), "C13 body: after request validation the body can still be read in full (the body left in the request has not been closed)")
 	verifAssert(req.ContentLength == int64(len(orig)), "C13 body: ContentLength still describes the body")
 	verifReach("end")
 }
